@@ -8,6 +8,7 @@ package main
 
 import (
 	"fmt"
+	"math"
 	"math/big"
 	"sort"
 	"strings"
@@ -83,14 +84,22 @@ type Term struct {
 	Input bool  // OpVar: named harness input (reported in models)
 }
 
+type tkey struct {
+	op             Op
+	w, ew, p1, p2  int32
+	n              int32
+	a0, a1, a2     int32
+	name, val, rest string
+}
+
 type TermFactory struct {
-	table map[string]*Term
+	table map[tkey]*Term
 	next  int
 	fresh int
 	ufs   map[string]string // uf name -> declaration
 }
 
-var TF = &TermFactory{table: map[string]*Term{}, ufs: map[string]string{}}
+var TF = &TermFactory{table: map[tkey]*Term{}, ufs: map[string]string{}}
 
 func (t *Term) IsBool() bool  { return t.W == 0 }
 func (t *Term) IsArr() bool   { return t.W == -1 }
@@ -109,16 +118,36 @@ func (t *Term) ConstInt() (int, bool) {
 	return int(t.Val.Int64()), true
 }
 
-func (f *TermFactory) key(op Op, w, ew, p1, p2 int, name string, val *big.Int, args []*Term) string {
-	var sb strings.Builder
-	fmt.Fprintf(&sb, "%d|%d|%d|%d|%d|%s|", op, w, ew, p1, p2, name)
+func (f *TermFactory) key(op Op, w, ew, p1, p2 int, name string, val *big.Int, args []*Term) tkey {
+	k := tkey{op: op, w: int32(w), ew: int32(ew), p1: int32(p1), p2: int32(p2), n: int32(len(args)), name: name}
 	if val != nil {
-		sb.WriteString(val.Text(16))
+		if val.IsUint64() {
+			k.a0 = int32(val.Uint64() >> 32)
+			k.a1 = int32(val.Uint64())
+			k.val = "u"
+		} else {
+			k.val = val.Text(16)
+		}
+		return k
 	}
-	for _, a := range args {
-		fmt.Fprintf(&sb, ",%d", a.ID)
+	switch len(args) {
+	case 0:
+	case 1:
+		k.a0 = int32(args[0].ID)
+	case 2:
+		k.a0, k.a1 = int32(args[0].ID), int32(args[1].ID)
+	case 3:
+		k.a0, k.a1, k.a2 = int32(args[0].ID), int32(args[1].ID), int32(args[2].ID)
+	default:
+		k.a0, k.a1, k.a2 = int32(args[0].ID), int32(args[1].ID), int32(args[2].ID)
+		b := make([]byte, 0, 4*len(args))
+		for _, a := range args[3:] {
+			id := a.ID
+			b = append(b, byte(id), byte(id>>8), byte(id>>16), byte(id>>24))
+		}
+		k.rest = string(b)
 	}
-	return sb.String()
+	return k
 }
 
 func (f *TermFactory) mk(op Op, w, ew, p1, p2 int, name string, val *big.Int, args ...*Term) *Term {
@@ -154,8 +183,20 @@ func signed(v *big.Int, w int) *big.Int {
 
 // ---- constructors ----
 
-func True() *Term  { return TF.mk(OpTrue, 0, 0, 0, 0, "", nil) }
-func False() *Term { return TF.mk(OpFalse, 0, 0, 0, 0, "", nil) }
+var trueT, falseT *Term
+
+func True() *Term {
+	if trueT == nil {
+		trueT = TF.mk(OpTrue, 0, 0, 0, 0, "", nil)
+	}
+	return trueT
+}
+func False() *Term {
+	if falseT == nil {
+		falseT = TF.mk(OpFalse, 0, 0, 0, 0, "", nil)
+	}
+	return falseT
+}
 func Bool(b bool) *Term {
 	if b {
 		return True()
@@ -289,6 +330,16 @@ func Eq(a, b *Term) *Term {
 		return Eq(a.Args[0], BV(b.Val, a.Args[0].W))
 	}
 	if a.Op == OpConst && b.Op == OpZExt {
+		return Eq(b, a)
+	}
+	if a.Op == OpConcat && b.Op == OpConcat && a.Args[1].W == b.Args[1].W {
+		return And(Eq(a.Args[0], b.Args[0]), Eq(a.Args[1], b.Args[1]))
+	}
+	if a.Op == OpConcat && b.Op == OpConst {
+		lw := a.Args[1].W
+		return And(Eq(a.Args[0], Extract(b, b.W-1, lw)), Eq(a.Args[1], Extract(b, lw-1, 0)))
+	}
+	if b.Op == OpConcat && a.Op == OpConst {
 		return Eq(b, a)
 	}
 	if a.ID > b.ID {
@@ -444,6 +495,9 @@ func bin(op Op, a, b *Term) *Term {
 		if isOnes(a) || isOnes(b) {
 			return BV(mask(w), w)
 		}
+		if r := orAsConcat(a, b, w); r != nil {
+			return r
+		}
 	case OpBXor:
 		if isZero(a) {
 			return b
@@ -532,6 +586,108 @@ func foldBin(op Op, x, y *big.Int, w int) *big.Int {
 	return nil
 }
 
+type bitSeg struct {
+	lo int
+	t  *Term
+}
+
+// bitSegs describes t as sub-terms placed at bit offsets with zeros elsewhere.
+func bitSegs(t *Term, depth int) ([]bitSeg, bool) {
+	if depth > 12 {
+		return nil, false
+	}
+	switch t.Op {
+	case OpConst:
+		if t.Val.Sign() == 0 {
+			return nil, true
+		}
+		return nil, false
+	case OpZExt:
+		return bitSegs(t.Args[0], depth+1)
+	case OpShl:
+		c, ok := t.Args[1].ConstInt()
+		if !ok {
+			return nil, false
+		}
+		in, ok := bitSegs(t.Args[0], depth+1)
+		if !ok {
+			return nil, false
+		}
+		var out []bitSeg
+		for _, sg := range in {
+			if sg.lo+c >= t.W {
+				continue
+			}
+			x := sg.t
+			if sg.lo+c+x.W > t.W {
+				x = Extract(x, t.W-sg.lo-c-1, 0)
+			}
+			out = append(out, bitSeg{sg.lo + c, x})
+		}
+		return out, true
+	case OpBOr:
+		a, ok1 := bitSegs(t.Args[0], depth+1)
+		b, ok2 := bitSegs(t.Args[1], depth+1)
+		if !ok1 || !ok2 {
+			return nil, false
+		}
+		return append(append([]bitSeg(nil), a...), b...), true
+	case OpConcat:
+		lo, ok1 := bitSegs(t.Args[1], depth+1)
+		hi, ok2 := bitSegs(t.Args[0], depth+1)
+		if !ok1 || !ok2 {
+			return nil, false
+		}
+		out := append([]bitSeg(nil), lo...)
+		for _, sg := range hi {
+			out = append(out, bitSeg{sg.lo + t.Args[1].W, sg.t})
+		}
+		return out, true
+	}
+	return []bitSeg{{0, t}}, true
+}
+
+// orAsConcat rewrites a|b as a concatenation when the operands occupy disjoint bit ranges
+// (little-endian decoding: uint32(b0) | uint32(b1)<<8 | ...).
+func orAsConcat(a, b *Term, w int) *Term {
+	if a.Op != OpZExt && a.Op != OpShl && a.Op != OpConcat && b.Op != OpZExt && b.Op != OpShl && b.Op != OpConcat {
+		return nil
+	}
+	sa, ok1 := bitSegs(a, 0)
+	sb, ok2 := bitSegs(b, 0)
+	if !ok1 || !ok2 {
+		return nil
+	}
+	all := append(append([]bitSeg(nil), sa...), sb...)
+	sort.Slice(all, func(i, j int) bool { return all[i].lo < all[j].lo })
+	pos := 0
+	var acc *Term
+	put := func(t *Term) {
+		if acc == nil {
+			acc = t
+		} else {
+			acc = Concat(t, acc)
+		}
+	}
+	for _, sg := range all {
+		if sg.lo < pos {
+			return nil // overlap
+		}
+		if sg.lo > pos {
+			put(BVu(0, sg.lo-pos))
+		}
+		put(sg.t)
+		pos = sg.lo + sg.t.W
+	}
+	if pos > w {
+		return nil
+	}
+	if pos < w {
+		put(BVu(0, w-pos))
+	}
+	return acc
+}
+
 func Add(a, b *Term) *Term  { return bin(OpAdd, a, b) }
 func Sub(a, b *Term) *Term  { return bin(OpSub, a, b) }
 func Mul(a, b *Term) *Term  { return bin(OpMul, a, b) }
@@ -601,9 +757,11 @@ func cmp(op Op, a, b *Term) *Term {
 }
 
 func Ult(a, b *Term) *Term { return cmp(OpUlt, a, b) }
-func Ule(a, b *Term) *Term { return cmp(OpUle, a, b) }
+// <= is expressed through < so that a condition and the negation of its
+// complement are the same term (branch conditions then match assumptions syntactically).
+func Ule(a, b *Term) *Term { return Not(cmp(OpUlt, b, a)) }
 func Slt(a, b *Term) *Term { return cmp(OpSlt, a, b) }
-func Sle(a, b *Term) *Term { return cmp(OpSle, a, b) }
+func Sle(a, b *Term) *Term { return Not(cmp(OpSlt, b, a)) }
 func Ugt(a, b *Term) *Term { return Ult(b, a) }
 func Uge(a, b *Term) *Term { return Ule(b, a) }
 func Sgt(a, b *Term) *Term { return Slt(b, a) }
@@ -879,10 +1037,38 @@ func UF(name string, w int, args ...*Term) *Term {
 	return TF.mk(OpUF, w, 0, 0, 0, name, nil, args...)
 }
 
-func FpLt(a, b *Term) *Term { return TF.mk(OpFpLt, 0, 0, 0, 0, "", nil, a, b) }
-func FpLe(a, b *Term) *Term { return TF.mk(OpFpLe, 0, 0, 0, 0, "", nil, a, b) }
-func FpEq(a, b *Term) *Term { return TF.mk(OpFpEq, 0, 0, 0, 0, "", nil, a, b) }
-func FpIsNaN(a *Term) *Term { return TF.mk(OpFpNaN, 0, 0, 0, 0, "", nil, a) }
+func fpConsts(a, b *Term) (float64, float64, bool) {
+	if a.Op == OpConst && b.Op == OpConst && a.W == 64 {
+		return math.Float64frombits(a.Uint64()), math.Float64frombits(b.Uint64()), true
+	}
+	return 0, 0, false
+}
+
+func FpLt(a, b *Term) *Term {
+	if x, y, ok := fpConsts(a, b); ok {
+		return Bool(x < y)
+	}
+	return TF.mk(OpFpLt, 0, 0, 0, 0, "", nil, a, b)
+}
+func FpLe(a, b *Term) *Term {
+	if x, y, ok := fpConsts(a, b); ok {
+		return Bool(x <= y)
+	}
+	return TF.mk(OpFpLe, 0, 0, 0, 0, "", nil, a, b)
+}
+func FpEq(a, b *Term) *Term {
+	if x, y, ok := fpConsts(a, b); ok {
+		return Bool(x == y)
+	}
+	return TF.mk(OpFpEq, 0, 0, 0, 0, "", nil, a, b)
+}
+func FpIsNaN(a *Term) *Term {
+	if a.Op == OpConst && a.W == 64 {
+		f := math.Float64frombits(a.Uint64())
+		return Bool(f != f)
+	}
+	return TF.mk(OpFpNaN, 0, 0, 0, 0, "", nil, a)
+}
 
 // ---- printing ----
 
